@@ -1,3 +1,72 @@
-(* C20 — declarative reading (placeholder, filled below) *)
-From Coq Require Import List QArith.
+(* C20 — declarative reading of the property, independent of how the code computes it.
+
+   * [valid s i]: index i is in range for shape s (r-coordinates, see Model.v).
+   * [masked_convex_combination]: what an attention output coordinate must be - the
+     normalised sum of the kept values, weighted by positive weights.
+   * [mha_spec]: multi-headed attention as the composition the documentation describes:
+     project (with the bias that was requested), run the wrapped single-head attention once
+     per head on that head's block of features, concatenate, project. *)
+From Coq Require Import List Arith Bool ZArith QArith.
 From PV Require Import C20.Model.
+Import ListNotations.
+Local Open Scope nat_scope.
+
+Definition valid (s : shape) (i : index) : Prop := Forall2 lt i s.
+
+Fixpoint psum (l : list Q) : Q := match l with [] => 0%Q | x :: t => (x + psum t)%Q end.
+
+Definition masked_convex_combination (T : nat) (kept : nat -> bool) (wt x : nat -> Q) : Q :=
+  (psum (map (fun t => if kept t then (wt t * x t)%Q else 0%Q) (seq 0 T))
+   / psum (map (fun t => if kept t then wt t else 0%Q) (seq 0 T)))%Q.
+
+(* the h-th block of d features of a projected tensor *)
+Definition head_slice (h d : nat) (t : tensor Q) : tensor Q :=
+  mkT (d :: tl (tshape t))
+      (fun i => match i with j :: r => tat t ((h * d + j) :: r) | [] => 0%Q end).
+
+Section MHASpec.
+  Variable expf : Q -> Q.
+  Variable sc : list Q -> list Q -> Q.
+  Variable P : mha_params.
+  Variables q k v : tensor Q.
+  Variable m : option (tensor bool).
+  Variable p : nat.
+
+  Definition head (h : nat) : option (tensor Q) :=
+    attend expf sc
+           (head_slice h (d_q P) (linear (WQ P) (bQ P) q))
+           (head_slice h (d_k P) (linear (WK P) (bK P) k))
+           (head_slice h (d_v P) (linear (WV P) (bV P) v))
+           m p (d_q P) (d_k P).
+
+  (* concatenation of the heads along the last axis; bs = shape of the remaining axes *)
+  Definition heads_cat (bs : shape) : tensor Q :=
+    mkT (num_heads P * d_v P :: bs)
+        (fun i => match i with
+                  | c :: r => match head (c / d_v P) with
+                              | Some o => tat o ((c mod d_v P) :: r)
+                              | None => 0%Q
+                              end
+                  | [] => 0%Q
+                  end).
+
+  Definition mha_spec (bs : shape) : tensor Q := linear (WC P) (bC P) (heads_cat bs).
+End MHASpec.
+
+(* boolean reading of the range clause on an implementation output (used by the harness to
+   judge an output without the model): every defined cell lies within [lo, hi] of the kept
+   values at that coordinate, up to [tol] *)
+Definition range_okb (tol : Q) (v : tensor Q) (m : option (tensor bool)) (p : nat)
+           (oshape : shape) (out : list Q) : bool :=
+  let T := nth p (tshape v) 0 in
+  forallb2 (fun cj y =>
+              match cj with
+              | c :: j =>
+                  let ks := filter (fun t => kept_at m (ins (p - 1) t j)) (seq 0 T) in
+                  match ks with
+                  | [] => true
+                  | _ => existsb (fun t => Qle_bool (bget v (c :: ins (p - 1) t j) - tol) y) ks
+                         && existsb (fun t => Qle_bool y (bget v (c :: ins (p - 1) t j) + tol)) ks
+                  end
+              | [] => true
+              end) (renum oshape) out.
